@@ -69,7 +69,7 @@ PROPS = {
         "drivers": ["c06"],
         "mc": [{"module": "MC_C06.tla", "cfg": "MC_C06.cfg", "cfg_quick": "MC_C06_quick.cfg"}], "expect_ops": ["Zone"],
         "rule": "one case = one re-expression; non-trivial = destination offset differs from the source offset",
-        "exhaustive_part": {"quick": "all 12 058 destination offsets once", "thorough": "all destination offsets x 4 rounds of boundary points"},
+        "exhaustive_part": {"quick": "all 11 999 destination offsets once", "thorough": "all destination offsets x 4 rounds of boundary points"},
         "assumptions": TRUST,
     },
     "C11": {
